@@ -17,6 +17,9 @@ MM = lin_add(lin_add(M1, M2), num(1))
 
 
 def run(rep, pdb, tier):
+    # ---- the solvers answer for every nonsingular system: their own panics depend on shapes (or an exactly-zero pivot) only
+    from .c01 import rule_rejects_only_shapes
+    rule_rejects_only_shapes(rep, pdb, [f_ for f_ in (pdb.fn("%s::%s" % (B, n_)) for n_ in ('decompose', 'solve', 'det')) if f_ is not None], floor=1)
     # ---- index map (S, L)
     maps = []
     for tr, name in (("std::ops::Index", "index"), ("std::ops::IndexMut", "index_mut")):
